@@ -15,6 +15,7 @@ EXTENDS MarketOps, Json
 CONSTANTS
   Ticks,       \* sequence: tick size per asset
   StepSize, NLevels, Trading0,
+  T0,          \* start time of the environment (need not be a multiple of the step size)
   Ops,         \* subset of {"new", "cancel", "modify", "step", "enable", "disable"}
   Sides, Kinds, Prices, Vols, Traders,
   ModPrices,   \* new prices offered to modify (None = keep)
@@ -34,7 +35,7 @@ Rep == CHOOSE x \in S : TRUE      \* submission-visible facts are the same in ev
 Assets == 0..(Len(Ticks) - 1)
 
 GInit ==
-  /\ S = {[m |-> NewEnv(0, Ticks, StepSize, Trading0, NLevels), sched |-> <<>>]}
+  /\ S = {[m |-> NewEnv(T0, Ticks, StepSize, Trading0, NLevels), sched |-> <<>>]}
   /\ hist = <<>>
   /\ nsub = 0
   /\ nstep = 0
